@@ -147,6 +147,8 @@ def taint_function(fi: FuncInfo):
 
 def check(ctx):
     repo = ctx.repo
+    ctx.rule("R09.10", "the Solution that solve() returns is built on the file this run wrote (the data handler's output path), never on the requested "
+                       "name - which may hold an earlier run (solve() followed to its end, pvs/tables.py)", 1)
     ctx.rule("R09.9", "no nested function or lambda modifies a variable captured from its enclosing function (no stateful closures)", 1)
     ctx.rule("R09.8", "no function writes module-level or class-level state (nothing survives from one run to the next inside a process)", 1)
     ctx.rule("R09.7", "mutable default arguments are never modified (a default object is shared by all calls in the process)", 1)
@@ -179,6 +181,7 @@ def check(ctx):
     sets(ctx)
     parallel(ctx)
     empties(ctx)
+    returned_file(ctx)
     # R09.5
     stores = []
     for f in repo.all_functions():
@@ -471,3 +474,23 @@ def solver_empty(ctx, f, n):
                    "other_readers": other_readers, "kernel_extents": ext}, where=f.fq, construct="self.new_A_induced buffer",
            loc=loc(f, n), message="the uninitialised induced-potential buffer can be observed before the kernel overwrites all of it",
            consequence="garbage enters the induced vector potential: runs are not reproducible")
+
+
+def returned_file(ctx):
+    """R09.10: an existing file at the requested output path makes the data handler write to <name>-1.h5; the returned Solution must read
+    that file.  solve() is followed to its end (pvs/tables.py) and the `path` handed to Solution(...) is read off."""
+    from ..tables import solve_outcomes
+    repo = ctx.repo
+    f = repo.func("tdgl.solver.solver", "TDGLSolver.solve")
+    got = None
+    for item in solve_outcomes(repo):
+        if item[0] and len(item) > 3:
+            got = item[3].get("path")
+    if got is None:
+        raise AnalysisError("solve() no longer ends in Solution(path=...) in the model")
+    ok = got.startswith("DataHandler(") and got.endswith(".output_path")
+    ctx.ob("R09.10", "Solution(path=...) is the output path of the DataHandler this run wrote to", ok, detail={"path": got}, where=f.fq,
+           construct="path of the returned Solution", loc=loc(f, f.node), message=f"the returned Solution is built on `{got[:100]}`",
+           consequence="when the requested output file already exists the run is written to <name>-1.h5 but the returned Solution reads (and then overwrites "
+                       "parts of) the earlier run stored under the requested name: identical inputs give different results depending on what is at the "
+                       "output location")
